@@ -3,8 +3,8 @@ Oracle commands for the model of wazevo's SSA passes `Wz.Model.SsaPass` (C01, ti
 
   c01ssa passes <function>             the function after `runPasses` (dead blocks, redundant block parameters,
                                        no-op shifts, dead code), every instruction with its group id (`@g`)
-  c01ssa stages <function>             the function after each of the four passes, separated by ` | `
-                                       (group ids only in the last one)
+  c01ssa stages <function>             the function after each of the four passes, separated by ` | `, every
+                                       operand resolved through the alias table (group ids only in the last one)
   c01ssa run <fuel> <args> <function>      `run` on the function as given
   c01ssa runopt <fuel> <args> <function>   `run` on `runPasses` of it
   c01ssa wf <function>                 `wellFormed`: 1 / 0      (wfwhy: which part fails, debugging)
@@ -155,6 +155,11 @@ def showBlockHead (B : Block) : List String :=
 def showFn (f : Func) : String :=
   " ".intercalate (f.validBlocks.flatMap (fun B => showBlockHead B ++ B.instrs.map showInstr))
 
+/-- every operand resolved through the alias table -/
+def showFnResolved (f : Func) : String :=
+  " ".intercalate (f.validBlocks.flatMap (fun B =>
+    showBlockHead B ++ B.instrs.map (fun i => showInstr (i.mapOperands (res f.alias)))))
+
 def showFnGids (f : Func) : String :=
   " ".intercalate ((dceWithGids f).flatMap (fun (B, is) =>
     showBlockHead B ++ is.map (fun p => s!"{showInstr p.1}@{p.2}")))
@@ -202,7 +207,7 @@ def step (st : St) (args : List String) : St × String :=
       let f1 := deadBlockElim f
       let f2 := redundantPhiElim f1
       let f3 := nopElim f2
-      (st, " | ".intercalate [showFn f1, showFn f2, showFn f3, showFnGids f3])
+      (st, " | ".intercalate [showFnResolved f1, showFnResolved f2, showFnResolved f3, showFnGids f3])
     | none => (st, "bad-op")
   | "run" :: fuel :: as :: toks =>
     match parseFn toks, parseNat fuel, parseArgs as with
